@@ -164,7 +164,7 @@ def run(ctx):
     # ---- (c) stress of the implementation: ThreadSanitizer, then native ---------------------------------
     ts, tlog = conclib.build_tsan_small("h_threads_tsan", os.path.join(vlib.VERIF, "harness", "h_threads.cc"),
                                         ["src/common/numbers/FastRational.cc"])
-    pool_race = None
+    pool_race, others = None, []
     if not ts:
         ctx.tie_broken("tsan-build-h_threads", tlog)
     else:
@@ -177,16 +177,21 @@ def run(ctx):
             reps = conclib.tsan_reports(out)
             ctx.case(key="tsan-stress:%d:%d" % (T, seed), nontrivial=True, kind="tsan-stress:%d-threads" % T,
                      sample=dict(cmd=" ".join(cmd[1:]), reports=len(reps), rc=rc))
+            others += [(cmd, rp) for rp in reps if not rp["on_pool"]]
             for rp in reps:
                 if rp["on_pool"]:
                     pool_race = pool_race or (cmd, rp)
-                else:
-                    ctx.violation("race:" + (rp["frames"][0].split(" ")[0] if rp["frames"] else rp["location"] or rp["kind"]),
-                                  "ThreadSanitizer: %s at %s" % (rp["kind"], "; ".join(rp["frames"]) or rp["location"]),
-                                  dict(cmd=" ".join(cmd), report=rp["text"]))
             if rc not in (0, 66) and not reps:
                 ctx.violation(psig + ":stress-crash",
                               "big-number stress under TSan died rc=%s: %s" % (rc, out[-300:]), dict(cmd=" ".join(cmd), out=out[-1500:]))
+        for cmd, rp in others:
+            if pool_race and locked is False and rp["in_fastrational"]:
+                # two threads inside the GMP cell of one FastRational: the "two owners" state itself
+                sig = psig + ":tsan-cell-shared"
+            else:
+                sig = "race:" + (rp["frames"][0].split(" ")[0] if rp["frames"] else rp["location"] or rp["kind"])
+            ctx.violation(sig, "ThreadSanitizer: %s at %s" % (rp["kind"], "; ".join(rp["frames"]) or rp["location"]),
+                          dict(cmd=" ".join(cmd), report=rp["text"]))
         if pool_race:
             cmd, rp = pool_race
             if locked:
